@@ -56,32 +56,20 @@ Definition ometa_eqb (a b : ometa) : bool :=
 
 Definition value_eqb (a b : value) : bool := (fst a =? fst b) && body_eqb (snd a) (snd b).
 
-(* The order of the dictionary entries (sortDict, by value comparison) is not
-   modelled: the observed order is used, after checking that it is a
-   permutation of the model's dictionary keys. *)
-Definition count_in (d : dict) (k : bytes) : N :=
-  match find (fun e => bytes_eqb (fst e) k) d with Some e => snd e | None => 0 end.
+(* sortDict's value comparison is not modelled: the order of the entries found
+   in the metadata defines [less]; the model then sorts its own dictionary
+   with it (from two different iteration orders) and must arrive at the same
+   entries AND the same selectors. *)
+Definition less_of (ord : list bytes) (a b : bytes) : bool := Nat.ltb (index_of a ord) (index_of b ord).
 
-Definition reorder (ord : list bytes) (d : dict) : dict := map (fun k => (k, count_in d k)) ord.
-
-Fixpoint nodupb (l : list bytes) : bool :=
-  match l with
-  | [] => true
-  | x :: r => negb (existsb (bytes_eqb x) r) && nodupb r
+Definition less_for (ords : list (tyid * list bytes)) (t : tyid) : bytes -> bytes -> bool :=
+  match find (fun o => fst o =? t) ords with
+  | Some o => less_of (snd o)
+  | None => less_of []
   end.
 
-Definition perm_ok (ord : list bytes) (d : dict) : bool :=
-  Nat.eqb (List.length ord) (List.length d)
-  && forallb (fun e => existsb (bytes_eqb (fst e)) ord) d
-  && nodupb ord.
-
-(* [ords]: for each observed dictionary the order used for the selectors
-   (reconstructed from the selector segment) and the order stored in the metadata *)
-Definition order_of (sel : bool) (ords : list (list bytes * list bytes)) (d : dict) : dict :=
-  match find (fun o => perm_ok (snd o) d) ords with
-  | Some o => if sel then (if perm_ok (fst o) d then reorder (fst o) d else []) else reorder (snd o) d
-  | None => []      (* no observed dictionary is a permutation of the model's: shows up as a mismatch *)
-  end.
+Definition iter_a (d : dict) : dict := d.
+Definition iter_b (d : dict) : dict := rev d.
 
 Definition maxdict : nat := 256.
 
@@ -114,23 +102,23 @@ Definition dec_body (T : PositiveMap.t bytes) (i : N) : body :=
   match i with 0 => None | Npos p => Some (tget T p) end.
 Definition dec_value (T : PositiveMap.t bytes) (x : tyid * N) : value := (fst x, dec_body T (snd x)).
 
-(* nullable primitive leaf columns: what was written to the column, the two
-   observed dictionary orders, the observed metadata + segment contents *)
-Definition col_ok (T : PositiveMap.t bytes) (c : bool * list N * (list bytes * list bytes) * cmeta) : bool :=
+(* nullable primitive leaf columns: what was written to the column, the
+   dictionary order found in the metadata, the observed metadata + segment contents *)
+Definition col_ok (T : PositiveMap.t bytes) (c : bool * list N * list bytes * cmeta) : bool :=
   let '(small, input, ord, obs) := c in
-  cmeta_eqb (col_encode (order_of true [ord]) (order_of false [ord]) maxdict small (map (dec_body T) input)) obs.
+  cmeta_eqb (col_encode (less_of ord) iter_a iter_b maxdict small (map (dec_body T) input)) obs.
 
-Definition col_mismatches T (l : list (bool * list N * (list bytes * list bytes) * cmeta)) : list N :=
+Definition col_mismatches T (l : list (bool * list N * list bytes * cmeta)) : list N :=
   mism (col_ok T) 0 l.
 
 (* whole objects of top-level primitive values: the metadata and what each of
    the two real readers returned (None = that reader failed; reported by the oracle) *)
 Definition obj_ok (T : PositiveMap.t bytes)
-           (c : list tyid * list (tyid * N) * list (list bytes * list bytes) * ometa
+           (c : list tyid * list (tyid * N) * list (tyid * list bytes) * ometa
                 * option (list (tyid * N)) * option (list (tyid * N))) : bool :=
   let '(smalls, input, ords, obs, row, vec) := c in
   let small := fun t => existsb (N.eqb t) smalls in
-  ometa_eqb (obj_encode (order_of true ords) (order_of false ords) maxdict small (map (dec_value T) input)) obs
+  ometa_eqb (obj_encode (less_for ords) iter_a iter_b maxdict small (map (dec_value T) input)) obs
   && match row with None => true
      | Some r => opt_eqb (list_eqb value_eqb) (obj_read false obs) (Some (map (dec_value T) r)) end
   && match vec with None => true
